@@ -12,6 +12,7 @@ require (
 	example.com/c20/lib v0.0.0
 	example.com/c20bundle v0.0.0
 	example.com/chk v0.0.0
+	example.com/c19b v0.0.0
 	example.com/io v0.0.0
 	example.com/rb1 v0.0.0
 	example.com/rb2 v0.0.0
@@ -58,3 +59,6 @@ replace example.com/wb2 => ./fake/wb2
 replace example.com/wb3 => ./fake/wb3
 
 replace example.com/wb4 => ./fake/wb4
+
+// rule bundle for the C19 scenarios
+replace example.com/c19b => ./fake/c19bundle
